@@ -837,34 +837,38 @@ func runC09(h *Harness) {
 		// Cleanup runs concurrently with the lookup; the scheduler decides the interleaving
 		h.S.pPre = (1 << 32) / 5
 		h.S.pDelayDen, h.S.delayFor = []int{0, 4, 8}[idx%3], 2*time.Second
-		var rv bool
-		var lerr error
-		var pv any
-		var done bool
-		cl := h.S.Go(n.Name, n.Name+"/cleanup", func() { n.V.Cleanup() })
-		lk := h.S.Go(n.Name, n.Name+"/lookup", func() {
-			defer func() { pv = recover() }()
-			if level == "repository" {
-				st, e := repo.IsRevoked(probeCert(w.A, serial), nil)
-				lerr = e
-				if st != nil {
-					rv = st.Revoked
-				}
-			} else {
-				e := n.V.VerifyClientCertificate(nil, w.ChainFor(w.A.Issue(EEOpts{Serial: serial, CDP: []string{}}), w.A))
-				lerr = e
-				if isRevokedErr(e) {
-					rv, lerr = true, nil
-				}
+		// several lookups at once, so that some of them are past their first steps when the shutdown passes
+		const racers = 5
+		rvs, lerrs, pvs := make([]bool, racers), make([]error, racers), make([]any, racers)
+		var tasks []*Task
+		for k := 0; k < racers; k++ {
+			if k == 2 {
+				tasks = append(tasks, h.S.Go(n.Name, n.Name+"/cleanup", func() { n.V.Cleanup() }))
 			}
-			done = true
-		})
-		h.Wait(cl, lk)
-		_ = done
-		sc["answer"] = fmt.Sprintf("revoked=%v err=%v", rv, lerr != nil)
+			tasks = append(tasks, h.S.Go(n.Name, fmt.Sprintf("%s/lookup%d", n.Name, k), func() {
+				defer func() { pvs[k] = recover() }()
+				if level == "repository" {
+					st, e := repo.IsRevoked(probeCert(w.A, serial), nil)
+					lerrs[k] = e
+					if st != nil {
+						rvs[k] = st.Revoked
+					}
+				} else {
+					e := n.V.VerifyClientCertificate(nil, w.ChainFor(w.A.Issue(EEOpts{Serial: serial, CDP: []string{}}), w.A))
+					lerrs[k] = e
+					if isRevokedErr(e) {
+						rvs[k], lerrs[k] = true, nil
+					}
+				}
+			}))
+		}
+		h.Wait(tasks...)
+		sc["answer"] = fmt.Sprintf("revoked=%v err=%v", rvs, lerrs)
 		if listed {
 			// an unlisted certificate answered "not revoked" is right whichever way the race went
-			check("lookup racing shutdown", rv, lerr, pv)
+			for k := 0; k < racers; k++ {
+				check("lookup racing shutdown", rvs[k], lerrs[k], pvs[k])
+			}
 		}
 		// and a lookup after shutdown
 		rv2, err2, pv2 := lookup()
